@@ -63,12 +63,33 @@ def run(cmd, timeout):
     return p.returncode, p.stdout, time.time() - t0
 
 def lean_stage(prop, tier):
+    """The Lean stage, repeated once if it fails: several checks may run at the same time on one machine (lake builds into one
+    directory), and a proof that really is broken fails twice."""
+    res = lean_stage_once(prop, tier)
+    if not res['ok']:
+        time.sleep(3.0)
+        first = res
+        res = lean_stage_once(prop, tier)
+        res['log'].insert(0, 'first attempt failed (%s); repeated' % '; '.join(x[:80] for x in first['failed'][:2]))
+    return res
+
+def locked_build(build):
+    """lake builds serialised across concurrently running checks (advisory lock next to the package)"""
+    import fcntl
+    with open(os.path.join(LEAN, '.verif-build.lock'), 'w') as lk:
+        fcntl.flock(lk, fcntl.LOCK_EX)
+        try:
+            return run(build, 3000)
+        finally:
+            fcntl.flock(lk, fcntl.LOCK_UN)
+
+def lean_stage_once(prop, tier):
     """returns dict(ok, obligations, discharged, theorems, failed, checker_cmd, log, partial)"""
     res = dict(ok=True, obligations=0, discharged=0, theorems=[], failed=[], log=[], partial=[])
     mod = 'Proofs.Props.' + prop
     build = 'lake build Model driver ' + mod
     cmds = [build]
-    rc, out, dt = run(build, 3000)
+    rc, out, dt = locked_build(build)
     res['log'].append('build rc=%d %.1fs' % (rc, dt))
     if rc != 0:
         res['ok'] = False
@@ -85,15 +106,22 @@ def lean_stage(prop, tier):
         res['ok'] = False
         res['failed'].append('no property theorems found for ' + prop)
     os.makedirs(os.path.join(LEAN, '.audit'), exist_ok=True)
-    af = os.path.join(LEAN, '.audit', prop + '.lean')
+    af = os.path.join(LEAN, '.audit', '%s.%d.lean' % (prop, os.getpid()))          # one file per process: checks of one property may run concurrently
     with open(af, 'w') as f:
         f.write('import %s\n' % mod)
         for n in names:
             f.write('#print axioms %s\n' % n)
-    audit = 'lake env lean .audit/%s.lean' % prop
-    cmds.append(audit)
+    audit = 'lake env lean .audit/%s' % os.path.basename(af)
+    # a stable copy for the command recorded in the evidence (replaced atomically; never read by a running check)
+    with open(af + '.tmp', 'w') as f: f.write(open(af).read())
+    os.replace(af + '.tmp', os.path.join(LEAN, '.audit', prop + '.lean'))
+    cmds.append('lake env lean .audit/%s.lean' % prop)
     if rc == 0:
-        rc2, out2, dt2 = run(audit, 1200)
+        try:
+            rc2, out2, dt2 = run(audit, 1200)
+        finally:
+            try: os.unlink(af)
+            except OSError: pass
         res['log'].append('audit rc=%d %.1fs' % (rc2, dt2))
         seen = {}
         for m in re.finditer(r"'([^']+)' depends on axioms: \[([^\]]*)\]", out2.replace('\n', ' ')):
